@@ -85,7 +85,8 @@ func (k vCorsCfg) refOriginAllowed(origin string) bool {
 func vCorsContainer(h *vH, k vCorsCfg, withCors bool) *Container {
 	c := h.build(CurlyRouter{})
 	if withCors {
-		c.Filter(k.filter(c).Filter)
+		cors := k.filter(c) // a variable, so that the harness compiles for value and pointer receivers alike
+		c.Filter(cors.Filter)
 	}
 	c.Filter(func(req *Request, resp *Response, chain *FilterChain) {
 		h.events = append(h.events, "later-filter")
